@@ -1,7 +1,7 @@
 """C03 - Decoded genotypes follow nearest-mutation inheritance and missing-data rules (structural clauses)."""
 from __future__ import annotations
 
-from . import scopes, lib_mem
+from . import scopes, lib_mem, lib_kind
 from . import lib_variant, lib_module, lib_py, lib_guards, lib_vcf
 
 LEVEL = "other"
@@ -25,11 +25,15 @@ def run(ctx):
     lib_py.alias_polarity(ctx, py)
     lib_py.kw_forward(ctx, py, mods=("trees", "genotypes"), only=ps)
     lib_py.unused_params(ctx, py, mods=("trees", "genotypes"), only=ps)
+    lib_kind.py_lints(ctx, py, mods=("trees", "genotypes"), only=ps)
     lib_py.ll_positional(ctx, py, P, only=ps)
     funcs = {"variant_init_samples_and_index_map"}
     seen = lib_guards.analyse(ctx, P, funcs=funcs)
     lib_guards.presence(ctx, seen, funcs=funcs, P=P)
     lib_py.decode_every(ctx, py)
+    lib_kind.py_searchsorted(ctx, py, [("trees", "TreeSequence.variants"), ("trees", "TreeSequence._haplotypes_array")])
+    lib_variant.variant_copy(ctx, P)
+    lib_kind.py_copy_state(ctx, py, [("genotypes", "Variant")])
     lib_variant.sample_walks(ctx, P, tus=("genotypes",), floor=1)
     lib_module.name_agreement(ctx, P, classes=("Variant",), floor=5)
     lib_py.facade_names(ctx, py, P, classes=(("genotypes", "Variant"),), floor=5)
